@@ -82,7 +82,31 @@ class Trigger:
             if low.startswith("update"):
                 self.update(sqlsym.parse(st))
                 continue
+            if low.startswith("insert"):
+                self.insert(sqlsym.parse(st))
+                continue
             raise Unsupported(f"PL/pgSQL statement {st[:60]!r}")
+
+    def insert(self, ast):
+        """INSERT INTO t (cols) VALUES (exprs) [, ...]: the expressions see NEW; columns not named get NULL"""
+        ins = ast[1]
+        if ins["conflict"] is not None or ins["src"][0] != "values":
+            raise Unsupported("trigger INSERT other than plain VALUES")
+        rel = self.db.tables[ins["table"]]
+        names = [c[1] for c in rel.cols]
+        rows = list(rel.rows)
+        for tup in ins["src"][1]:
+            vals = [None] * len(names)
+            for cname, e in zip(ins["cols"], tup):
+                vals[names.index(cname)] = self.ev.ev(e, self.env())
+            for i, v in enumerate(vals):
+                if v is None:
+                    like = rel.rows[0].vals[i] if rel.rows else sqlsym.vnull("int")
+                    vals[i] = sqlsym.null_like(like)
+                elif v.kind == "opaque" and v.z is None and rel.rows:
+                    vals[i] = sqlsym.null_like(rel.rows[0].vals[i]) if z3.is_true(v.null) else v
+            rows.append(Row(z3.BoolVal(True), vals))
+        self.db.tables[ins["table"]] = Rel(rel.cols, rows)
 
     def update(self, ast):
         u = ast[1]
